@@ -81,8 +81,12 @@ def inplace_on_source(o):
     return None
 
 
-def analyse_cell(P, is_right, swap, reverse, vector):
+def analyse_cell(P, is_right, swap, reverse, vector, respelled=False):
     table = table_for(is_right, swap, reverse)
+    if respelled:
+        from ..facepad import respell
+
+        table = respell(table)
     outs = run(P, table, vector=vector)
     rows = []
     for o in outs:
@@ -255,11 +259,13 @@ def check_single_links(ctx, P, vectors, rule_of=None, floor_rule="R05.1"):
     rule_of = rule_of or (lambda r: r)
     fi = P.func("padding:_pad_face_connections")
     n_cells = 0
-    for is_right, swap, reverse in itertools.product([False, True], repeat=3):
+    for is_right, swap, reverse, respelled in itertools.product([False, True], repeat=4):
         for vector in vectors:
-            kind = f"{'right' if is_right else 'left'} side, {'swapped' if swap else 'same'} axis, {'reversed' if reverse else 'normal'}, {vector or 'scalar'}"
+            if respelled and vector == "parallel":
+                continue  # the spelling of the table is exercised on scalars and on the component that changes sign
+            kind = f"{'right' if is_right else 'left'} side, {'swapped' if swap else 'same'} axis, {'reversed' if reverse else 'normal'}, {vector or 'scalar'}" + (", links as lists with 0/1 flags" if respelled else "")
             try:
-                rows = analyse_cell(P, is_right, swap, reverse, vector)
+                rows = analyse_cell(P, is_right, swap, reverse, vector, respelled)
             except Unmodelled as e:
                 ctx.unknown(rule_of("R05.1"), kind, str(e))
                 continue
@@ -283,7 +289,7 @@ def check_single_links(ctx, P, vectors, rule_of=None, floor_rule="R05.1"):
                     ctx.report(rule_of(rule), fi, f"single link: {kind}", msg)
             else:
                 ctx.ok(rule_of("R05.1" if vector is None else "R05.5"), f"single link: {kind}", f"source {e_orth!r} along the link axis, along-edge {e_tang!r}, sign/partner as the orientation map demands")
-    ctx.floor(rule_of(floor_rule), "single-link cells evaluated", n_cells, 8 * len(vectors))
+    ctx.floor(rule_of(floor_rule), "single-link cells evaluated", n_cells, 8 * len(vectors))  # + the respelled tables
 
 
 def check_one_sided(ctx, P, rule_of=None):
